@@ -3,6 +3,8 @@
 // minimal disruption on adding / removing one server, clamping, membership) directly on the real
 // function, and measures — as a TEST, not a theorem — the share of a large key set every server owns.
 // The same op lines are evaluated by the Lean model (SemaModel/C13/Model.lean, h := XXH64 in Lean).
+// sites.go adds the call sites that route: the real Sync() and the real request paths on in-process
+// cluster nodes (lines sync / shsync / req / shreq).
 package main
 
 import (
@@ -499,7 +501,7 @@ func main() {
 	}
 	o.Close(map[string]any{
 		"call_sites":             sites,
-		"rule":                   "distinct op lines with a non-empty input (hash of a non-empty string, routing over a non-empty server list)",
+		"rule":                   "distinct op lines with a non-empty input (hash of a non-empty string, routing over a non-empty server list, a cluster line sync / shsync / req / shreq executed on real nodes)",
 		"routing_cases_judged":   judged,
 		"routing_cases_with_tie": skippedTies,
 		"share_test":             map[string]any{"kind": "statistical TEST (not a theorem): min / max fraction of the key set owned by one server, per server-set size", "rows": shares},
